@@ -54,8 +54,17 @@ def generate_source_code(docstring, parsed):
     if not rules:
         raise Exception('Expected one or more grammar rules.')
 
+    # Anonymous rules get names that do not depend on object identities (a
+    # derived grammar has to find them again) and that differ at each level of
+    # an "extends" chain.
+    depth = 0
+    ancestor = parsed.extends
+    while ancestor is not None:
+        depth += 1
+        ancestor = ancestor.extends
+
     visited_names = set()
-    for rule in rules:
+    for index, rule in enumerate(rules):
         if rule.name is not None and rule.name.startswith('_'):
             raise Exception(
                 'Grammar rule names must start with a letter. Found a rule that'
@@ -63,7 +72,7 @@ def generate_source_code(docstring, parsed):
             )
 
         if not rule.name:
-            rule.name = f'_anonymous_{id(rule)}'
+            rule.name = f'_anonymous_{depth}_{index}'
 
         if rule.name in visited_names:
             raise Exception(
@@ -244,6 +253,13 @@ def generate_source_code(docstring, parsed):
                     visited_names.add(stmt.name)
                     more_imports.append(stmt.name)
             ancestor = ancestor.extends
+
+        if parsed.extends is not None:
+            # Whatever else the ancestors' contexts hold (their anonymous rules,
+            # for instance) is inherited as it is.
+            out += Code('for _name, _value in vars(_super_ctx).items():')
+            out += Code('    if not hasattr(_ctx, _name):')
+            out += Code('        setattr(_ctx, _name, _value)')
 
         if more_imports:
             lines = ',\n    '.join(sorted(more_imports))
